@@ -38,7 +38,7 @@ def run(F, chk):
         check_relabel(F, st, P3)
         check_unpublish(F, st, P4)
     P3.floor('lifecycle stage functions', len(lcstage.find_stage(F)), 1)
-    comparators.check(F, O1, where=lambda b: any('adlt::lifecycle::Lifecycle' in t for t in b.arg_types()), floor=1)
+    comparators.check(F, O1, where=lambda b: any(re.search(r'Lifecycle\b', t) for t in b.arg_types()), floor=2)
 
 
 def is_self_field(e, name):
